@@ -212,6 +212,16 @@ package trace
 //@   requires s == nil || (s.tracer != nil && s.tracer.provider != nil)
 //@   ensures s != nil && !old(s.endTime.IsZero()) ==> s.events == old(s.events)
 
+// RecordError: the recording check and the event append happen in ONE critical section (a check made before the lock is
+// taken says nothing about the span once the lock is held: a concurrent End may have completed in between)
+//@ func (s *recordingSpan) RecordError(err error, opts []trace.EventOption)
+//@   prop C04 C10
+//@   acquires s.mu
+//@   unchecked frame,no-panic error formatting, stack capture and the option plumbing (other module) are not under contract
+//@   requires s == nil || (s.tracer != nil && s.tracer.provider != nil)
+//@   ensures s != nil && !old(s.endTime.IsZero()) ==> s.events == old(s.events)
+//@   assert@call recordingSpan.addEvent#1 : s.endTime.IsZero()
+
 // per-link attribute cap; the empty link is ignored; nothing after End
 //@ func (s *recordingSpan) AddLink(link trace.Link)
 //@   prop C04 C10
